@@ -136,3 +136,9 @@ Definition derives (f : fn_def) (t : string) : bool :=
 Lemma reload_ids_compare_as_numbers :
   forallb (derives ReloadId_derives) ["PartialEq"; "Eq"; "PartialOrd"; "Ord"] = true.
 Proof. vm_compute. reflexivity. Qed.
+
+(* an id is one usize, the atomic cell one AtomicUsize: ids pass through the cell unchanged (no
+   narrowing on the way in or out) *)
+Lemma reload_ids_are_whole_words :
+  fn_body ReloadId_fields = [EPath ["usize"]] /\ fn_body AtomicReloadId_fields = [EPath ["AtomicUsize"]].
+Proof. vm_compute. split; reflexivity. Qed.
